@@ -496,6 +496,9 @@ func CurrentThread() int { return must().cur.ID }
 type Explorer struct {
 	PBound int // preemption bound
 	EBound int // environment deviation bound
+	// ShareDepth: with NShards > 1 the nodes with at most ShareDepth deviations (default 1) are executed by every
+	// shard (counted by shard 0) and the nodes one level deeper are dealt round-robin.
+	ShareDepth int
 	// FBound bounds the non-default choices taken where the running thread is
 	// blocked or finished (free switches); 0 = unbounded, n > 0 = at most n-1.
 	FBound int
@@ -514,6 +517,7 @@ type Explorer struct {
 }
 
 type pending struct {
+	d int // number of deviations in the prefix (depth in the exploration tree)
 	prefix  []int
 	p, e, f int
 }
@@ -543,8 +547,28 @@ func (x *Explorer) Explore(system func(), visit func(r *Result, preemptions, dev
 			buckets[level] = buckets[level][:n-1]
 			queued--
 			res := Run(it.prefix, x.Opts, system)
-			root := len(it.prefix) == 0
-			if !root || x.Shard == 0 {
+			// Sharding: the root and its children (one deviation) are executed by every shard and counted by
+			// shard 0 only; the grandchildren are dealt round-robin, which balances far better than dealing the
+			// children (a child's subtree shrinks with the position of its deviation).
+			sd := x.ShareDepth
+			if sd == 0 {
+				sd = 1
+			}
+			// never share the deepest level: with at most maxDepth deviations the dealing must happen above it
+			maxDepth := x.PBound + x.EBound
+			if x.FBound > 0 {
+				maxDepth += x.FBound - 1
+			} else {
+				maxDepth += 1 << 20
+			}
+			if sd > maxDepth-1 {
+				sd = maxDepth - 1
+			}
+			if sd < 0 {
+				sd = 0
+			}
+			shared := it.d <= sd && x.NShards > 1
+			if !shared || x.Shard == 0 {
 				x.Executions++
 				x.Transitions += int64(res.Steps)
 				if len(res.Points) > x.MaxPoints {
@@ -573,7 +597,7 @@ func (x *Explorer) Explore(system func(), visit func(r *Result, preemptions, dev
 					if cp > x.PBound || ce > x.EBound || (x.FBound > 0 && cf > x.FBound-1) {
 						continue
 					}
-					if root {
+					if it.d == sd && x.NShards > 1 {
 						child++
 						if child%x.NShards != x.Shard {
 							continue
@@ -594,7 +618,7 @@ func (x *Explorer) Explore(system func(), visit func(r *Result, preemptions, dev
 					if lv < level {
 						lv = level
 					}
-					buckets[lv] = append(buckets[lv], pending{prefix: np, p: cp, e: ce, f: cf})
+					buckets[lv] = append(buckets[lv], pending{prefix: np, p: cp, e: ce, f: cf, d: it.d + 1})
 					queued++
 				}
 			}
